@@ -76,7 +76,8 @@ def main(c):
                     continue
                 # every other behaviour runs with peer p1's next hop reported unreachable: reachability is no part of the
                 # Adj-RIB-In, so the model is the same, but the table then holds paths flagged next-hop-invalid
-                f.write(f"walk {prog} {','.join(ends) or '-'} {total_walks % 2}\n")
+                # ... and every other pair with route selection deferred (a restarting speaker): again no part of the Adj-RIB-In
+                f.write(f"walk {prog} {','.join(ends) or '-'} {total_walks % 4}\n")
                 exp.append(("walk", tag))
                 for stp in w:
                     f.write(f"{stp['th']} {stp['step']}\n")
@@ -124,6 +125,12 @@ def main(c):
                 if sv["view"] != g["rib"]:
                     report("reconstruct", {"what": f"subscriber {u} reconstructs a different Adj-RIB-In than the RIB holds", "subscriber_view": sv["view"],
                                            "rib": g["rib"], "events": sv["events"]})
+                elif not sv["eos"]:
+                    report("no_end_of_snapshot", {"what": f"subscriber {u} never saw the end of its snapshot", "events": sv["events"]})
+                elif sv["bmpview"] != g["rib"]:
+                    report("reconstruct_bmp", {"what": f"the BMP client's fold of subscriber {u}'s events (snapshot phase through apply_snapshot) "
+                                               "gives a different Adj-RIB-In than the RIB holds", "bmp_view": sv["bmpview"], "rib": g["rib"],
+                                               "events": sv["events"]})
     c.cov["parts"]["replay"] = {"behaviours": total_walks, "steps": steps_total}
     c.cov["traces_validated_against_impl"] = total_walks
     c.cov["distinct_nontrivial"] = total_walks
@@ -131,9 +138,9 @@ def main(c):
     c.cov["exhaustive"] = False
     c.cov["rule"] = ("model: all interleavings of two session threads (2-3 calls each, with and without session end), one or two "
                      "subscribers, two shards, three keys, an import policy rejecting one value - exhaustive in TLC; replay: random "
-                     "complete interleavings (250 per configuration quick, 500 thorough; every other one with a next hop reported unreachable) on real threads; distinct = replayed behaviours")
+                     "complete interleavings (250 per configuration quick, 500 thorough; in turn plain / with a next hop reported unreachable / with route selection deferred / both) on real threads, each subscriber's events folded by the harness and by the BMP client's own snapshot fold; distinct = replayed behaviours")
     c.assumptions += ["scheduling points sit right before each shard-lock acquisition: a change that moves work across such a point is "
                       "visible, a change between two statements inside one critical section or before the point is only visible through its "
                       "effect on the final comparison", "drop_stale / LLGR purges / soft_reset_in (which read the subscriber list before "
                       "taking the shard locks) and GR stale retention are outside the property's quantifier and not modelled",
-                      "peer-up / peer-down pairing of bmp.rs is not covered by this check"]
+                      "peer-up / peer-down pairing of bmp.rs is the session half of C19 (BmpSession.tla)"]
